@@ -33,16 +33,19 @@ def run(tier, replay=None):
     rvh = build_harness()
     cases, gres = tlc_generate("Gen_Dump", coverage=True)
     out.add_tlc(gres)
-    values = [c["v"] for c in cases if not c["loc"]]
+    values = [c["v"] for c in cases if not c["loc"] and not c["set"]]
+    sets = [c["v"]["regs"] for c in cases if c["set"]]
     locs = [c["v"] for c in cases if c["loc"]]
-    hc = [{"id": 1, "mode": "yamlval", "values": values, "locs": locs}]
+    hc = [{"id": 1, "mode": "yamlval", "values": values, "locs": locs, "sets": sets}]
     nval, nflow = (60, 120) if tier == "quick" else (1500, 3000)
     r1 = run_tlc("Gen_Values", cfg="Gen_Values_sim", simulate=nval, depth=30, workers=4, seed_=seed() * 13 + 1)
     r2 = run_tlc("Gen_Flow", cfg="Gen_Flow_sim", simulate=nflow, depth=40, workers=4, seed_=seed() * 19 + 2, heap="6g")
     out.add_tlc(r1)
     out.add_tlc(r2)
     texts = [c["text"] for c in r1.tagged("CASE")] + [c["text"] for c in r2.tagged("CASE") if c["shape"] in ("forced", "data")]
+    import absprog
     texts += list(corpus.all_programs().values()) + corpus.VALUE_PROGRAMS + CSR_PROGRAMS
+    texts += [absprog.render(p) for p in absprog.PROGRAMS.values()]
     texts = list(dict.fromkeys(texts))
     if replay:
         texts = [json.load(open(replay))["witness"]["text"]]
@@ -84,7 +87,7 @@ def run(tier, replay=None):
         "different results -> different dumps is checked on the programs of this run (all pairs sharing a dump), not on all conceivable results",
     ]
     return out.finish(extra_cov={
-        "values": len(values), "locations": len(locs), "programs": len(texts), "distinct_results": ndistinct,
+        "values": len(values), "locations": len(locs), "register_sets": len(sets), "programs": len(texts), "distinct_results": ndistinct,
         "dump_collisions_examined": npairs, "exhaustive": True,
         "evaluations": len(values) + len(locs) + len(texts), "distinct_nontrivial": len(values) + len(locs) + ndistinct,
         "rule": "Gen_Dump: every value kind x boundary registers/offsets/labels/CSR numbers and every memory-location kind (exhaustive); programs from Gen_Values/Gen_Flow simulation + corpus + CSR programs: dump, reload, compare; all results sharing a dump compared group by group",
